@@ -92,6 +92,9 @@ func verifDatagram(kind int) []byte {
 	case 0:
 		m.AddOption(&dhcpv6.OptionGeneric{OptionCode: dhcpv6.OptionCode(250), OptionData: verifBytes("val", 3)})
 		return m.ToBytes()
+	case 3: // a datagram that fills the server's read buffer exactly (4096 bytes)
+		m.AddOption(&dhcpv6.OptionGeneric{OptionCode: dhcpv6.OptionCode(250), OptionData: append(verifBytes("val", 3), make([]byte, 4085)...)})
+		return m.ToBytes()
 	case 8: // a large datagram (1500 bytes of option data)
 		m.AddOption(&dhcpv6.OptionGeneric{OptionCode: dhcpv6.OptionCode(250), OptionData: verifBytes("val", 1500)})
 		return m.ToBytes()
@@ -126,7 +129,7 @@ func VerifC14Serve(k1, k2, k3 int) {
 		}
 		peer := &net.UDPAddr{IP: net.IP(verifBytes("peer.ip", 16)), Port: int(verifU16("peer.port"))}
 		switch kind {
-		case 0, 5, 6, 7, 8:
+		case 0, 3, 5, 6, 7, 8:
 			k := kind
 			if k == 7 {
 				k = 0
